@@ -3,6 +3,7 @@ package main
 import (
 	"fmt"
 	"math"
+	"math/big"
 	"time"
 
 	"github.com/smart-core-os/sc-api/go/traits"
@@ -14,6 +15,7 @@ import (
 
 	"github.com/smart-core-os/sc-golang/internal/testproto"
 	"github.com/smart-core-os/sc-golang/pkg/cmp"
+	"github.com/smart-core-os/sc-golang/verifharness/hx"
 )
 
 // ---- abstract messages of spec/Cmp.tla --------------------------------------
@@ -32,6 +34,7 @@ type OptF struct {
 type OptI struct {
 	Has bool `json:"has"`
 	T   int  `json:"t"`
+	E   int  `json:"e"` // anchor: 0 = the ordinary range, others = extreme anchors (see farTime / farDur)
 }
 type WK struct {
 	P  bool `json:"p"`
@@ -122,18 +125,119 @@ func newEmbed(sc, tb int) embed {
 	return embed{unit: units[sc%len(units)], base: bases[tb%len(bases)], dbase: dbases[tb%len(dbases)]}
 }
 
+// Extreme anchors.  Timestamps: -1 time.Time{} (0001-01-01), -2 / 2 the least / greatest instant
+// UnixNano can express (1677-09-21 / 2262-04-11), 1 the start of year 9999.  Durations: t = 12 on
+// anchor 1 is math.MaxInt64 ns, t = -12 on anchor -1 is math.MinInt64 ns.
+const maxOffset = 12 // |t| of every generated value
+const maxTol = 13    // greatest generated tolerance, in units
+
+func farTime(a int) time.Time {
+	switch a {
+	case -1:
+		return time.Time{}
+	case -2:
+		return time.Unix(0, math.MinInt64)
+	case 2:
+		return time.Unix(0, math.MaxInt64)
+	case 1:
+		return time.Date(9999, 1, 1, 0, 0, 0, 0, time.UTC)
+	}
+	panic("bad time anchor")
+}
+
+func (e embed) farDur(a int) time.Duration {
+	switch a {
+	case 1:
+		return time.Duration(math.MaxInt64) - maxOffset*e.unit
+	case -1:
+		return time.Duration(math.MinInt64) + maxOffset*e.unit
+	}
+	panic("bad duration anchor")
+}
+
+func (e embed) instant(o OptI) time.Time {
+	if o.E != 0 {
+		return farTime(o.E).Add(time.Duration(o.T) * e.unit)
+	}
+	return e.base.Add(time.Duration(o.T) * e.unit)
+}
+
+func (e embed) span(o OptI) time.Duration {
+	if o.E != 0 {
+		return e.farDur(o.E) + time.Duration(o.T)*e.unit
+	}
+	return e.dbase + time.Duration(o.T)*e.unit
+}
+
 func (e embed) ts(o OptI) *timestamppb.Timestamp {
 	if !o.Has {
 		return nil
 	}
-	return timestamppb.New(e.base.Add(time.Duration(o.T) * e.unit))
+	return timestamppb.New(e.instant(o))
 }
 
 func (e embed) du(o OptI) *durationpb.Duration {
 	if !o.Has {
 		return nil
 	}
-	return durationpb.New(e.dbase + time.Duration(o.T)*e.unit)
+	return durationpb.New(e.span(o))
+}
+
+// checkAnchors establishes, with exact big-integer arithmetic, what spec/Cmp.tla trusts: under every
+// unit and base, values on two different anchors are farther apart than the greatest tolerance plus
+// all offsets (so "different anchor => not within tolerance" is exact), nothing overflows int64 when
+// a value is built, and timestamps / durations survive the round trip through their protobuf form.
+func checkAnchors() {
+	ns := func(t time.Time) *big.Int { // exact nanoseconds since the Unix epoch
+		v := new(big.Int).Mul(big.NewInt(t.Unix()), big.NewInt(1e9))
+		return v.Add(v, big.NewInt(int64(t.Nanosecond())))
+	}
+	for sc := 0; sc < 4; sc++ {
+		for tb := 0; tb < 4; tb++ {
+			e := newEmbed(sc, tb)
+			slack := new(big.Int).Mul(big.NewInt(maxTol+2*maxOffset+1), big.NewInt(int64(e.unit)))
+			slack.Add(slack, big.NewInt(4e9))
+			times := []*big.Int{ns(e.base), ns(farTime(-1)), ns(farTime(-2)), ns(farTime(1)), ns(farTime(2))}
+			durs := []*big.Int{big.NewInt(int64(e.dbase))}
+			for _, a := range []int{1, -1} {
+				// built without overflow: anchor +- maxOffset units stays inside int64
+				v := big.NewInt(int64(e.farDur(a)))
+				lo := new(big.Int).Sub(v, new(big.Int).Mul(big.NewInt(maxOffset), big.NewInt(int64(e.unit))))
+				hi := new(big.Int).Add(v, new(big.Int).Mul(big.NewInt(maxOffset), big.NewInt(int64(e.unit))))
+				if a == 1 && hi.Cmp(big.NewInt(math.MaxInt64)) != 0 || a == -1 && lo.Cmp(big.NewInt(math.MinInt64)) != 0 {
+					hx.Fatal("duration anchor %d does not end at the int64 limit", a)
+				}
+				durs = append(durs, v)
+			}
+			for _, set := range [][]*big.Int{times, durs} {
+				for i := range set {
+					for j := range set {
+						if i == j {
+							continue
+						}
+						d := new(big.Int).Sub(set[i], set[j])
+						if d.Abs(d).Cmp(slack) <= 0 {
+							hx.Fatal("anchors %d and %d are too close for unit %v", i, j, e.unit)
+						}
+					}
+				}
+			}
+			for _, a := range []int{-2, -1, 0, 1, 2} {
+				for _, t := range []int{-maxOffset, 0, maxOffset} {
+					o := OptI{Has: true, T: t, E: a}
+					if got := e.ts(o).AsTime(); !got.Equal(e.instant(o)) {
+						hx.Fatal("timestamp %v does not survive its protobuf form", o)
+					}
+					if a == 2 || a == -2 {
+						continue // durations have the anchors -1, 0, 1 only
+					}
+					if got := e.du(o).AsDuration(); got != e.span(o) {
+						hx.Fatal("duration %v does not survive its protobuf form", o)
+					}
+				}
+			}
+		}
+	}
 }
 
 func f64(f Flt) float64 {
@@ -214,6 +318,12 @@ func (e embed) conc(a Msg) proto.Message {
 		m = p
 	case "A":
 		m = &types.AudioLevelChange{Name: str(a.S), ChangeTime: e.ts(a.Act)}
+	case "S":
+		s := &traits.ElectricMode_Segment{Magnitude: float32(f64(a.Fl))}
+		if a.Of.Has {
+			s.Shape = &traits.ElectricMode_Segment_Fixed{Fixed: float32(f64(a.Of.V))}
+		}
+		m = s
 	case "T":
 		t := &testproto.TestAllTypes{}
 		t.DefaultInt32 = int32(a.I)
